@@ -24,6 +24,12 @@ var kindNames = map[uint8]string{KSched: "sched", KSelect: "select", KMap: "map"
 // TapeCap is the preallocated room of a generating tape (draws per run).
 var TapeCap = 1 << 20
 
+// generating tapes reuse one process-global buffer (one run at a time)
+var (
+	gTapeVals  []uint32
+	gTapeKinds []uint8
+)
+
 // Tape is the recorded choice sequence of one run.
 type Tape struct {
 	Vals  []uint32
@@ -46,7 +52,11 @@ func mix64(z uint64) uint64 {
 
 // NewTape makes a generating tape for (seed, run).
 func NewTape(seed uint64, run int) *Tape {
-	return &Tape{state: mix64(mix64(seed) ^ uint64(run)*0x9e3779b97f4a7c15), Vals: make([]uint32, 0, TapeCap), Kinds: make([]uint8, 0, TapeCap)}
+	if cap(gTapeVals) < TapeCap {
+		gTapeVals = make([]uint32, 0, TapeCap)
+		gTapeKinds = make([]uint8, 0, TapeCap)
+	}
+	return &Tape{state: mix64(mix64(seed) ^ uint64(run)*0x9e3779b97f4a7c15), Vals: gTapeVals[:0], Kinds: gTapeKinds[:0]}
 }
 
 // ReplayTape makes a replaying tape from recorded values.
